@@ -116,6 +116,18 @@ def streams(ctx):
                 if kind != "nf" and row is not None and row.get("n") == "1" and not any(
                         vlib.decode_line(c["req"])[0] == "c.mark" and vlib.decode_line(c["req"])[3] == name for c in cs[a:b]):
                     problems.append(f"{name} marked nonexistent although the registry answered {kind}")
+            # "the routine reports as fetched exactly the packages whose versions were stored" (fetch_missing_packages): judged
+            # where it is unambiguous — a requested package whose registry answered with versions and whose cache calls were
+            # not failed must be reported, one whose registry did not answer with versions must not
+            if entry == "fetch.missing" and "fetched=" in out:
+                ft = out.split("fetched=")[1].split(" ")[0]
+                reported = [vlib.unhx(x[1:]) for x in ft[1:-1].split(",")] if len(ft) > 2 else []
+                for (name, kind, vs, tags, fl) in jobs:
+                    stored = any(it.startswith(f"V {reg}/{vlib.hx(name)} ") for it in dump.split(";"))
+                    if name in req_names and kind == "ok" and vs and fl == "-" and stored and name not in reported and [j[0] for j in jobs].count(name) == 1:
+                        problems.append(f"{name}: versions were fetched and stored but the routine does not report it as fetched (reported {reported})")
+                    if name in reported and kind != "ok":
+                        problems.append(f"{name} reported as fetched although the registry answered {kind}")
             if problems:
                 der.append({"req": vlib.line("latest.same", "1.0.0", "1.0.0"), "index": b - 2,
                             "check": (lambda o, problems=problems: ("violation", "; ".join(problems))),
